@@ -22,6 +22,7 @@ type c04Case struct {
 	Forest model.Forest `json:"forest"`
 	Format string       `json:"format"`
 	Entry  string       `json:"entry"`           // md | root | noiter | md-massive
+	Tty    bool         `json:"tty,omitempty"`   // the writer is a terminal (slave side of a pseudo terminal)
 	Again  int          `json:"again,omitempty"` // root entry: the tree was already encoded once when its last Again nodes were still missing
 }
 
@@ -32,6 +33,9 @@ func c04Check(c c04Case) string {
 	cs := ops.NewCase("output", "md")
 	cs.Opts.Encode = c.Format
 	cs.Opts.NilOpts = len(c.Forest)%2 == 0 || c.Again > 0
+	if c.Tty {
+		cs.Faults.IOKind = 10
+	}
 	switch c.Entry {
 	case "root":
 		cs.Entry = "root"
@@ -138,7 +142,10 @@ func c04Record(col *collector, c c04Case) {
 	if m.Depth() >= 34 {
 		cl = append(cl, "deep>=34")
 	}
-	col.eval(hostile && m.Depth() >= 2, hash64(c.Forest.String(), c.Format, c.Entry, fmt.Sprint(c.Again)), cl...)
+	if c.Tty {
+		cl = append(cl, "writer-is-a-terminal")
+	}
+	col.eval(hostile && m.Depth() >= 2, hash64(c.Forest.String(), c.Format, c.Entry, fmt.Sprint(c.Again, c.Tty)), cl...)
 	col.sample(func() any { return map[string]any{"forest": c.Forest.String(), "format": c.Format, "entry": c.Entry} })
 }
 
@@ -287,6 +294,7 @@ func c04Gen() *rapid.Generator[c04Case] {
 			f = genForest(forestParams{maxNodes: maxNodes, maxDepth: maxDepth, names: names, oneRoot: format == "toml" || entry == "root"}).Draw(t, "forest")
 		}
 		c := c04Case{Forest: f, Format: format, Entry: entry}
+		c.Tty = rapid.IntRange(0, 5).Draw(t, "tty") == 0
 		if entry == "root" && rapid.IntRange(0, 2).Draw(t, "again") == 0 {
 			c.Again = rapid.IntRange(1, 4).Draw(t, "nAgain")
 		}
